@@ -248,7 +248,29 @@ class Push(Op):
         return o.kind()
 
 
-CATALOG = {c.name: c for c in (Shell, ExecOut, StreamingShell, Root, Reboot, Stat, List, Pull, Push)}
+class Open(Op):
+    """AdbDevice._open on its own: the stream stays open"""
+    name = 'open'
+
+    def setup(self, ctx, st, w, k):
+        self.silent = self.kw.get('silent', False)
+        self.dest = b'shell:silent%d' % k if self.silent else b'shell:keep%d' % k
+        if not self.silent:
+            st.shell_outs[self.dest] = [b'x']
+        else:
+            st.silent_dests = getattr(st, 'silent_dests', set()) | {self.dest}
+
+    def run(self, w):
+        return w.try_call('_open', self.dest, None, self.kw.get('read_timeout', 2), None)
+
+    def check(self, ctx, w, st, o, expected, tag):
+        pass
+
+    def observe(self, o):
+        return o.kind()
+
+
+CATALOG = {c.name: c for c in (Open, Shell, ExecOut, StreamingShell, Root, Reboot, Stat, List, Pull, Push)}
 
 
 def make(spec):
